@@ -136,45 +136,50 @@ func (s *Solver) Declare(v *Term) {
 	s.scopes[len(s.scopes)-1].defined[v.ID] = true
 }
 
-// define emits definitions for all not yet defined non-leaf nodes under t.
+// define declares the variables and emits definitions for the named (large)
+// nodes under t that the solver does not know yet.
 func (s *Solver) define(t *Term) {
 	if t.Op == OConst {
 		return
 	}
-	if s.isDefined(t.ID) {
-		return
-	}
 	if t.Op == OVar {
-		// variables must have been declared by the owner; declare lazily.
-		s.Declare(t)
+		if !s.isDefined(t.ID) {
+			s.Declare(t)
+		}
 		return
 	}
-	// iterative post-order to avoid deep recursion on long chains
+	if t.Named() && s.isDefined(t.ID) {
+		return
+	}
 	type fr struct {
 		t *Term
 		i int
 	}
+	visited := map[*Term]bool{}
 	stack := []fr{{t, 0}}
 	for len(stack) > 0 {
 		f := &stack[len(stack)-1]
 		if f.i < len(f.t.Args) {
 			a := f.t.Args[f.i]
 			f.i++
-			if a.Op == OConst || s.isDefined(a.ID) {
+			if a.Op == OConst || visited[a] {
 				continue
 			}
 			if a.Op == OVar {
-				s.Declare(a)
+				if !s.isDefined(a.ID) {
+					s.Declare(a)
+				}
 				continue
 			}
+			if a.Named() && s.isDefined(a.ID) {
+				continue
+			}
+			visited[a] = true
 			stack = append(stack, fr{a, 0})
 			continue
 		}
 		n := f.t
 		stack = stack[:len(stack)-1]
-		if s.isDefined(n.ID) {
-			continue
-		}
 		if n.Op == OUF && !s.ufDeclared(n.Name) {
 			var as []string
 			for _, a := range n.Args {
@@ -183,7 +188,10 @@ func (s *Solver) define(t *Term) {
 			s.send(fmt.Sprintf("(declare-fun %s (%s) %s)", n.Name, strings.Join(as, " "), n.Sort))
 			s.scopes[len(s.scopes)-1].declUF[n.Name] = true
 		}
-		s.send(fmt.Sprintf("(define-fun %s () %s %s)", Ref(n), n.Sort, Body(n)))
+		if !n.Named() || s.isDefined(n.ID) {
+			continue
+		}
+		s.send(fmt.Sprintf("(define-fun t!%d () %s %s)", n.ID, n.Sort, Body(n)))
 		s.scopes[len(s.scopes)-1].defined[n.ID] = true
 	}
 }
